@@ -64,7 +64,9 @@ def numeric_twin_spec(spec: NetSpec, subset, pv):
 def compile_sym(spec, sym, compact, declared):
     """declared: tuple of parameter names in declaration order."""
     XX = getattr(cs, sym)
-    syms = {p: XX.sym(p) for p in declared}
+    # per-link parameters: the SYMBOLS carry the plain parameter name ("rho_crit"), as when links are created in a
+    # loop; the dictionary keys (and hence the argument names) stay distinct
+    syms = {p: XX.sym(split(p)[0]) for p in declared}
     override = {}
     for i in range(len(spec.links)):
         for p in LINKP:
@@ -148,7 +150,8 @@ def subsets_for(idx, mode):
     if mode in ("rotating", "pairs"):
         # parameters of individual links (one symbol per link instead of one shared by all links)
         subs += [("rho_crit_L0", "rho_crit_L1", "rho_crit_L2", "rho_crit_L3"), ("a_L1", "v_free_L0", "L_L1", "T"),
-                 ("rho_max_L0", "C", "rho_max_L1")]
+                 ("rho_max_L0", "C", "rho_max_L1"),
+                 ("rho_crit_L0", "a_L0", "rho_crit_L1", "a_L1", "rho_crit_L2", "a_L2")]  # declared link by link
     if mode == "rotating":
         k = 3
         subs += [pairs[(idx * k + j) % len(pairs)] for j in range(k)]
